@@ -220,6 +220,11 @@ def child(case):
                 if not await srv.wait_caught_up(900) or srv.check_task():
                     return srv.check_task() or 'no progress'
                 await compare_index(srv, w, rng, label='server-after-compaction', diffs_out=diffs, counters=c)
+                # undo blocks whose history sits in compacted rows (a row boundary may fall inside a block)
+                w.switch_to(w.fork(2, 3, rng=rng))
+                if not await srv.wait_caught_up(900) or srv.check_task():
+                    return srv.check_task() or 'no progress'
+                await compare_index(srv, w, rng, label='reorg-into-compacted-rows', diffs_out=diffs, counters=c)
                 grow_chain(w, 3, rng)
                 if not await srv.wait_caught_up(900) or srv.check_task():
                     return srv.check_task() or 'no progress'
@@ -332,7 +337,7 @@ def run(tier, seed, replay=None):
              'of electrumx_compact_history is run to completion, stopped in-process after batch k and resumed or abandoned, or killed '
              '(os._exit) between batches / between the last history batch and set_flush_count. Oracle: get_txnums for every script '
              'hash identical before and after; then a real server is started on the database and must serve the reference histories, '
-             'also after three more blocks and a depth-2 reorg on top; the resulting database is then compacted once more in one go '
+             'also after a depth-2 reorg reaching into the compacted rows, three more blocks and another depth-2 reorg on top; the resulting database is then compacted once more in one go '
              '(histories unchanged) and three further blocks are indexed and compared. The abandoned-then-index clause is skipped (and counted) when a '
              'script has more compacted rows than the flush count, as the statement allows. distinct = (database, row size, batch '
              'limit, mode, stop point)',
